@@ -135,7 +135,12 @@ pub const DOCUMENT_TTL_THRESHOLD: u32 = DOCUMENT_EXTEND_AMOUNT - DAY_IN_LEDGERS;
 /// Max. number of buckets
 pub const MAX_BUCKETS: u32 = 100;
 /// Maximum number of document entries per bucket.
+#[cfg(not(stellar_verif))]
 pub const BUCKET_SIZE: u32 = 50;
+// Verification hook (off by default): two-element buckets keep the bucket-crossing logic within reach of
+// bounded model checking. Enabled only with `RUSTFLAGS="--cfg stellar_verif"`.
+#[cfg(stellar_verif)]
+pub const BUCKET_SIZE: u32 = 2;
 /// Maximum number of documents that can be stored.
 pub const MAX_DOCUMENTS: u32 = BUCKET_SIZE * MAX_BUCKETS; // 5_000
 /// Maximum length for document URI.
